@@ -1315,11 +1315,20 @@ func verifyGitObjectAndAttestationsUsingVerifiers(ctx context.Context, verifiers
 		verifiedUsing                       string
 		acceptedPrincipalIDs                *set.Set[string]
 		rslEntrySignatureNeededForThreshold bool
+		exhaustivePrincipalIDs              *set.Set[string]
 	)
 	for _, verifier := range verifiers {
 		trustedPrincipalIDs := verifier.TrustedPrincipalIDs()
 
 		usedPrincipalIDs, err := verifier.Verify(ctx, gitID, authorizationAttestation)
+		if verifier.verifyExhaustively && err == nil && len(verifiers) > 1 {
+			// The exhaustive verifier only identifies every principal that
+			// has signed, which the global rules need. It does not express
+			// any rule, so it must not satisfy (and end the search through)
+			// the rules that protect this namespace.
+			exhaustivePrincipalIDs = usedPrincipalIDs
+			continue
+		}
 		if err == nil {
 			// We meet requirements just from the authorization attestation's sigs
 			verifiedUsing = verifier.Name()
@@ -1394,6 +1403,11 @@ func verifyGitObjectAndAttestationsUsingVerifiers(ctx context.Context, verifiers
 	}
 
 	if verifiedUsing != "" {
+		if exhaustivePrincipalIDs != nil {
+			// global rules count every authenticated principal
+			exhaustivePrincipalIDs.Extend(acceptedPrincipalIDs)
+			acceptedPrincipalIDs = exhaustivePrincipalIDs
+		}
 		return verifiedUsing, acceptedPrincipalIDs, rslEntrySignatureNeededForThreshold, nil
 	}
 
